@@ -340,6 +340,10 @@ scpi_bool_t SCPI_Input(scpi_t * context, const char * data, int len) {
 
     if (len == 0) {
         context->buffer.data[context->buffer.position] = 0;
+#ifdef SCPI_PARSER_VERIF
+        /* verification hook: bytes beyond the terminating NUL are stale, reading them is an error */
+        scpi_verif_input_hook(context, 1);
+#endif
         result = SCPI_Parse(context, context->buffer.data, context->buffer.position);
         context->buffer.position = 0;
     } else {
